@@ -213,6 +213,8 @@ func c04Replay(c *Ctx, ev *Evidence, sig, what string) (*Violation, error) {
 	for _, el := range c04Names {
 		// every candidate element bare and with a global attribute (so that elements that are only kept with attributes show up)
 		fmt.Fprintf(&pb, `<%s>t</%s><%s id="i" title="t">u</%s>`, el, el, el, el)
+		// comments, doctypes and markup in the element's content (skipped-content elements take another route through the loop)
+		fmt.Fprintf(&pb, `<%s><!--c--><!DOCTYPE d><b>w</b></%s>`, el, el)
 	}
 	probe := pb.String()
 	reqs := []NativeReq{{"op": "sanitize", "policy": []NativeReq{{"op": "base", "name": "UGC"}}, "input": probe}, {"op": "sanitize", "policy": []NativeReq{{"op": "base", "name": "Strict"}}, "input": probe}}
